@@ -287,14 +287,16 @@ fn random_shape(rng: &mut Rng, old: &Yaml) -> Yaml {
     match rng.below(18) {
         // long shapes made of multi-byte text (behind 0-3 ASCII characters, so that any byte
         // offset at which an error message, a dump or a buffer is cut falls inside a character for
-        // some draw): a long string, and a long sequence of strings
+        // some draw): a long string (at most 4 000 bytes - the cap on needle lengths, see DESIGN
+        // 6.3: building automata over longer needles is slow, and slow is not a loop), and a long
+        // sequence of strings
         16 => {
             let ch = *rng.pick(&["\u{e9}", "\u{65e5}\u{672c}\u{8a9e}", "\u{1f980}"]);
-            Yaml::String(format!("{}{}", &"abc"[..rng.below(4)], ch.repeat(*rng.pick(&[100usize, 700, 1500, 3000, 9000]))))
+            Yaml::String(format!("{}{}", &"abc"[..rng.below(4)], ch.repeat(*rng.pick(&[300usize, 1200, 2100, 3000, 4000]) / ch.len())))
         }
         17 => {
             let ch = *rng.pick(&["\u{e9}", "\u{65e5}\u{672c}\u{8a9e}\u{306e}\u{30c6}\u{30ad}\u{30b9}\u{30c8}", "\u{1f980}"]);
-            let n = *rng.pick(&[30usize, 120, 200, 400, 1200]);
+            let n = *rng.pick(&[30usize, 120, 200, 400]);
             let mut v = vec![Yaml::String("abc"[..rng.below(4)].to_owned())];
             v.extend((0..n).map(|_| Yaml::String(ch.repeat(1 + rng.below(3)))));
             Yaml::Sequence(v)
